@@ -187,8 +187,8 @@ func (g *pgen) seq(depth int, want int) {
 	}
 }
 
-func (g *pgen) sep(a, b tok, nedges int, topLevel bool) string {
-	glue := g.feat.Glue
+func (g *pgen) sep(a, b tok, nedges int, glueOK bool) string {
+	glue := g.feat.Glue && (glueOK || !g.wrap)
 	space := func() string {
 		if g.ws == "pre-wrap" {
 			// preserved spaces: only single spaces between words and none before a forced break
@@ -296,15 +296,11 @@ func genPara(r *rand.Rand, feat features, maxWords int, ws string) *Para {
 			j++
 		}
 		edges := toks[i+1 : j]
-		minDepth := depth
 		for _, e := range edges {
 			if e.k == 'o' {
 				depth++
 			} else if e.k == 'x' {
 				depth--
-			}
-			if depth < minDepth {
-				minDepth = depth
 			}
 		}
 		if j >= len(toks) {
@@ -317,7 +313,7 @@ func genPara(r *rand.Rand, feat features, maxWords int, ws string) *Para {
 			break
 		}
 		nxt := toks[j]
-		glueOK := minDepth == 0
+		glueOK := true
 		for _, e := range edges {
 			// finding D11: when a unit straddles the end of an inline box, a break opportunity
 			// between that box's children is not found; glue only after single-text spans
